@@ -404,3 +404,246 @@ pub fn unblock(e: &syn::Expr) -> &syn::Expr {
     }
     e
 }
+
+// ---------------------------------------------------------------------------------------------
+// Rename-tolerant fragment matching.
+//
+// Shape rules compare pieces of the subject with expected fragments. To keep such a rule from firing on
+// a behaviour-preserving rename of a local variable, fragments written as SPACE-SEPARATED TOKENS are
+// matched modulo a consistent, injective renaming of local-looking identifiers. (Fragments without
+// spaces are compared on the compact text, exactly.)
+
+#[derive(Clone, Debug)]
+pub struct Compact {
+    pub text: String,
+    pub toks: Vec<String>,
+    /// char offset in `text` at which each token starts
+    pub offs: Vec<usize>,
+}
+
+pub fn flat_tokens(ts: proc_macro2::TokenStream, out: &mut Vec<String>) {
+    for tt in ts {
+        match tt {
+            proc_macro2::TokenTree::Group(g) => {
+                let (o, c) = match g.delimiter() {
+                    proc_macro2::Delimiter::Parenthesis => ("(", ")"),
+                    proc_macro2::Delimiter::Brace => ("{", "}"),
+                    proc_macro2::Delimiter::Bracket => ("[", "]"),
+                    proc_macro2::Delimiter::None => ("", ""),
+                };
+                if !o.is_empty() {
+                    out.push(o.to_string());
+                }
+                flat_tokens(g.stream(), out);
+                if !c.is_empty() {
+                    out.push(c.to_string());
+                }
+            }
+            other => out.push(other.to_string()),
+        }
+    }
+}
+
+pub fn tsx<T: ToTokens>(t: &T) -> Compact {
+    let mut toks = vec![];
+    flat_tokens(t.to_token_stream(), &mut toks);
+    let mut text = String::new();
+    let mut offs = vec![];
+    for k in &toks {
+        offs.push(text.len());
+        text.push_str(k);
+    }
+    Compact { text, toks, offs }
+}
+
+const KEEP_IDENTS: &[&str] = &[
+    "self", "Self", "crate", "super", "let", "mut", "if", "else", "match", "while", "loop", "for", "in", "return", "break", "continue", "fn", "as", "ref", "move", "true", "false", "where", "impl", "pub", "use", "mod", "struct", "enum", "const", "static", "unsafe", "dyn", "type", "trait",
+];
+
+fn renamable(toks: &[String], i: usize) -> bool {
+    let t = &toks[i];
+    let first = t.chars().next().unwrap_or(' ');
+    if !(first.is_ascii_lowercase() || first == '_') || !t.chars().all(|c| c.is_alphanumeric() || c == '_') || KEEP_IDENTS.contains(&t.as_str()) || t == "_" {
+        return false;
+    }
+    let prev = if i > 0 { toks[i - 1].as_str() } else { "" };
+    let next = toks.get(i + 1).map(|s| s.as_str()).unwrap_or("");
+    // fields / methods / path segments / macro names / calls / labelled fields keep their names
+    if prev == "." || (prev == ":" && i > 1 && toks[i - 2] == ":") || next == "!" || next == "(" || next == ":" {
+        return false;
+    }
+    true
+}
+
+fn match_at(hay: &[String], at: usize, needle: &[String]) -> bool {
+    if at + needle.len() > hay.len() {
+        return false;
+    }
+    let mut fwd: std::collections::BTreeMap<&str, &str> = std::collections::BTreeMap::new();
+    let mut bwd: std::collections::BTreeMap<&str, &str> = std::collections::BTreeMap::new();
+    for j in 0..needle.len() {
+        let (n, h) = (needle[j].as_str(), hay[at + j].as_str());
+        let rn = renamable(needle, j);
+        let rh = renamable(&hay[at..at + needle.len()], j);
+        if rn && rh {
+            match (fwd.get(n), bwd.get(h)) {
+                (Some(x), _) if *x != h => return false,
+                (_, Some(y)) if *y != n => return false,
+                _ => {
+                    fwd.insert(n, h);
+                    bwd.insert(h, n);
+                }
+            }
+        } else if n != h {
+            return false;
+        }
+    }
+    true
+}
+
+/// Lex a fragment (prefix `§`, tokens separated by blanks where needed) into the token alphabet of
+/// `flat_tokens`: identifiers/numbers, string and char literals (kept whole), single punctuation characters.
+fn frag_tokens(frag: &str) -> Vec<String> {
+    let s: Vec<char> = frag.trim_start_matches('§').chars().collect();
+    let mut out = vec![];
+    let mut i = 0;
+    while i < s.len() {
+        let c = s[i];
+        if c.is_whitespace() {
+            i += 1;
+        } else if c.is_alphanumeric() || c == '_' {
+            let st = i;
+            while i < s.len() && (s[i].is_alphanumeric() || s[i] == '_') {
+                i += 1;
+            }
+            // byte / byte-string / raw prefixes directly followed by a quote belong to the literal
+            if i < s.len() && (s[i] == '"' || s[i] == '\'') && ["b", "r", "br"].contains(&s[st..i].iter().collect::<String>().as_str()) {
+                let q = s[i];
+                i += 1;
+                while i < s.len() && s[i] != q {
+                    if s[i] == '\\' {
+                        i += 1;
+                    }
+                    i += 1;
+                }
+                i += 1;
+            }
+            out.push(s[st..i.min(s.len())].iter().collect());
+        } else if c == '"' {
+            let st = i;
+            i += 1;
+            while i < s.len() && s[i] != '"' {
+                if s[i] == '\\' {
+                    i += 1;
+                }
+                i += 1;
+            }
+            i += 1;
+            out.push(s[st..i.min(s.len())].iter().collect());
+        } else if c == '\'' {
+            // char literal 'x' / '\n' / '\u{..}'; otherwise a lone quote (lifetime)
+            let st = i;
+            let mut j = i + 1;
+            if j < s.len() && s[j] == '\\' {
+                j += 2;
+                while j < s.len() && s[j] != '\'' {
+                    j += 1;
+                }
+            } else {
+                j += 1;
+            }
+            if j < s.len() && s[j] == '\'' {
+                i = j + 1;
+                out.push(s[st..i].iter().collect());
+            } else {
+                i += 1;
+                out.push("'".to_string());
+            }
+        } else {
+            out.push(c.to_string());
+            i += 1;
+        }
+    }
+    out
+}
+
+impl Compact {
+    fn token_mode(frag: &str) -> bool {
+        frag.starts_with('§')
+    }
+    /// token index of the first match
+    pub fn find(&self, frag: &str) -> Option<usize> {
+        if Self::token_mode(frag) {
+            let n = frag_tokens(frag);
+            (0..self.toks.len()).find(|&i| match_at(&self.toks, i, &n))
+        } else {
+            let p = self.text.find(frag)?;
+            Some(match self.offs.binary_search(&p) {
+                Ok(i) => i,
+                Err(i) => i.saturating_sub(1),
+            })
+        }
+    }
+    pub fn contains(&self, frag: &str) -> bool {
+        self.find(frag).is_some()
+    }
+    pub fn matches(&self, frag: &str) -> std::vec::IntoIter<usize> {
+        let v: Vec<usize> = if Self::token_mode(frag) {
+            let n = frag_tokens(frag);
+            (0..self.toks.len()).filter(|&i| match_at(&self.toks, i, &n)).collect()
+        } else {
+            self.text.match_indices(frag).map(|(i, _)| i).collect()
+        };
+        v.into_iter()
+    }
+    pub fn starts_with(&self, frag: &str) -> bool {
+        if Self::token_mode(frag) {
+            match_at(&self.toks, 0, &frag_tokens(frag))
+        } else {
+            self.text.starts_with(frag)
+        }
+    }
+    pub fn ends_with(&self, frag: &str) -> bool {
+        if Self::token_mode(frag) {
+            let n = frag_tokens(frag);
+            n.len() <= self.toks.len() && match_at(&self.toks, self.toks.len() - n.len(), &n)
+        } else {
+            self.text.ends_with(frag)
+        }
+    }
+    pub fn is(&self, frag: &str) -> bool {
+        if Self::token_mode(frag) {
+            let n = frag_tokens(frag);
+            n.len() == self.toks.len() && match_at(&self.toks, 0, &n)
+        } else {
+            self.text == frag
+        }
+    }
+}
+
+impl std::ops::Deref for Compact {
+    type Target = String;
+    fn deref(&self) -> &String {
+        &self.text
+    }
+}
+impl std::fmt::Display for Compact {
+    fn fmt(&self, f: &mut std::fmt::Formatter<'_>) -> std::fmt::Result {
+        f.write_str(&self.text)
+    }
+}
+impl PartialEq<&str> for Compact {
+    fn eq(&self, o: &&str) -> bool {
+        self.is(o)
+    }
+}
+impl PartialEq<str> for Compact {
+    fn eq(&self, o: &str) -> bool {
+        self.is(o)
+    }
+}
+impl PartialEq<String> for Compact {
+    fn eq(&self, o: &String) -> bool {
+        self.is(o)
+    }
+}
